@@ -32,7 +32,7 @@ DESCRIBE = {
               "chromosome): accepted or refused exactly as Lean `regionOfTriple` (= parseRegion_bounds), accepted values equal",
 }
 RULE = ("tables for the file-based `table` check: quick = EVERY valid segmentation of <=2 chromosomes of length <=5, every "
-        "one-chromosome table of length 6 and a seeded tenth of the two-chromosome tables with a length-6 chromosome; thorough = "
+        "one-chromosome table of length 6 and a seeded 7% of the two-chromosome tables with a length-6 chromosome; thorough = "
         "EVERY one of length <=6 plus every chromosome of length 7 (8) alone and paired in both orders with every partner of length "
         "<=5 (<=3); `extent_unit` covers EVERY segmentation of <=2 chromosomes of length <=6 (quick) / <=8 (thorough); plus the "
         "D1-regression corpus, uniform two-chromosome tables of lengths 7..10 x widths 2..5, seeded random 3-4 chromosome tables "
@@ -505,14 +505,14 @@ def cases(tier, rng):
             yield "bounds", {"bins": bins, "pixels": default_pixels(bins), "queries": bounds_queries(bins)}
     # exhaustive enumerations (no randomness consumed)
     # quick: the file-based check takes every table with lengths <= 5, every one-chromosome table of length 6 and a
-    # seeded tenth of the two-chromosome tables containing a length-6 chromosome; thorough takes them all
+    # seeded 7% of the two-chromosome tables containing a length-6 chromosome; thorough takes them all
     k = 0
     for n in (1, 2):
         for bins in all_segmentations(6, n):
             lens = chrom_lens(bins)
             yield "extent_unit", {"bins": bins}
             k += 1
-            if not (thorough or n == 1 or max(lens) <= 5 or rng.random() < 0.1):
+            if not (thorough or n == 1 or max(lens) <= 5 or rng.random() < 0.07):
                 continue
             full = n == 1 or max(lens) <= 3
             stride = 1 if full else (2 if max(lens) <= 4 else (12 if max(lens) == 5 else 24))
